@@ -193,6 +193,10 @@ func runC19(c *Ctx) {
 				ages = []float64{13.6, 13.9} // the 2 s refresh arrives at 12.8 s
 			} else if k.outcome != "rfok" {
 				ages = []float64{12.9, 13.3}
+			} else {
+				// 2.5 s after the first reply's lifetime has ended: the refreshed reply (stored at about
+				// 13.7 s, 16 s of lifetime) is what the cache holds now
+				ages = append(ages, 18.5)
 			}
 			for _, age := range ages {
 				sleepUntil(age)
@@ -367,6 +371,11 @@ func runC19(c *Ctx) {
 			case "rfok", "rfshort":
 				// the refresh reply was sent at fs[1].TSend; a probe sent 700 ms later must see the renewed entry
 				if len(fs) >= 2 && fs[1].TSend != 0 && r.TSend > fs[1].TSend+int64(700*time.Millisecond) {
+					if k.outcome == "rfok" && age > time.Duration(k.ttl)*time.Second && r.Serial != fs[1].Serial && r.Serial != old {
+						// past the first reply's lifetime, well inside the refreshed one's (and before its last quarter)
+						lifeViolation("refresh-did-not-extend-lifetime", fmt.Sprintf("probe at age %v - %v after the refresh reply %d (ttl %d) was sent, the first reply's lifetime over - shows reply %d fetched anew (%d upstream fetches): the refreshed entry was gone although most of its lifetime remained", age, time.Duration(r.TSend-fs[1].TSend), fs[1].Serial, k.ttl, r.Serial, len(fs)), cs(map[string]any{"serial": r.Serial}))
+						continue
+					}
 					if r.Serial == old {
 						c.Violation("refresh-did-not-replace", fmt.Sprintf("probe at age %v, %v after the refresh reply, still shows the old reply %d (new reply %d was not stored)", age, time.Duration(r.TSend-fs[1].TSend), old, fs[1].Serial), cs(map[string]any{"serial": r.Serial}))
 						continue
